@@ -267,6 +267,8 @@ type LeaderEngine struct {
 	last uint64
 	dead bool
 	id   string // unique peer name: labels the goroutines the controller starts for this engine
+	ns   string // namespace of the controller ("default" unless the engine runs sessions on a fake clock)
+	sess *SessCtl
 }
 
 type peerAddr string
@@ -306,13 +308,16 @@ func (e *LeaderEngine) ctx() (context.Context, context.CancelFunc) {
 // completion to the caller before the goroutine closes its iterator; closing the controller while such a
 // goroutine is still running crashes the process inside Pebble (iterator closed after the DB), which
 // is not what these checks are about.
+// a list issued by the session manager itself (session.delete, Initialize) carries no peer
+var internalList = []byte(`"oxia":"list", "peer":""`)
+
 func (e *LeaderEngine) quiesce() {
 	deadline := time.Now().Add(CallTimeout)
 	needle := []byte(fmt.Sprintf("%q:%q", "peer", e.id))
 	for time.Now().Before(deadline) {
 		var buf bytes.Buffer
 		_ = pprof.Lookup("goroutine").WriteTo(&buf, 1)
-		if !bytes.Contains(buf.Bytes(), needle) {
+		if !bytes.Contains(buf.Bytes(), needle) && !(e.sess != nil && bytes.Contains(buf.Bytes(), internalList)) {
 			return
 		}
 		runtime.Gosched()
@@ -325,18 +330,23 @@ func NewLeaderEngine() (*LeaderEngine, error) {
 	if err != nil {
 		return nil, err
 	}
-	e := &LeaderEngine{dir: dir, wall: map[uint64]int{}, id: fmt.Sprintf("verif-engine-%d", engineSeq.next())}
+	e := &LeaderEngine{dir: dir, wall: map[uint64]int{}, id: fmt.Sprintf("verif-engine-%d", engineSeq.next()), ns: "default"}
+	return e, e.start()
+}
+
+func (e *LeaderEngine) start() (err error) {
+	dir := e.dir
 	e.kvf, err = kv.NewPebbleKVFactory(&kv.FactoryOptions{DataDir: dir + "/db", CacheSizeMB: 1})
 	if err != nil {
-		return nil, err
+		return err
 	}
 	e.walf = wal.NewWalFactory(&wal.FactoryOptions{BaseWalDir: dir + "/wal", Retention: time.Hour, SegmentSize: 1 << 20, SyncData: false})
-	return e, e.lead()
+	return e.lead()
 }
 
 func (e *LeaderEngine) lead() error {
 	_, err := guard(func() (int, error) {
-		lc, err := server.NewLeaderController(server.Config{NotificationsRetentionTime: time.Hour}, "default", Shard, nil, e.walf, e.kvf)
+		lc, err := server.NewLeaderController(server.Config{NotificationsRetentionTime: time.Hour}, e.ns, Shard, nil, e.walf, e.kvf)
 		if err != nil {
 			return 0, fmt.Errorf("NewLeaderController: %w", err)
 		}
@@ -522,6 +532,7 @@ func (e *LeaderEngine) TsMap() TsMap {
 }
 func (e *LeaderEngine) HasIndexQueries() bool { return true }
 func (e *LeaderEngine) Close() {
+	e.drainSessions()
 	e.quiesce()
 	if !e.dead && e.lc != nil {
 		_, _ = guard(func() (int, error) { return 0, e.lc.Close() })
